@@ -37,6 +37,9 @@ Relaxations (what the statement leaves open; marked R-... in the code):
   R-group-havoc               the achievements q_a/q_b of the on-demand mode m2 are driven by the achievement group ag of
                               m1; what the group does to them is not modelled: their state may change in any way, but
                               only for the player who is up and only while m2 is loaded for him (otherwise: violation).
+Achievement group ag2 (g_a, g_b, g_c; same mode, auto_select off, disable_random) is modelled exactly: its own state
+(enabled, current member) starts from scratch at every mode load, everything else comes from the achievements of
+the player who is up - so a player's achievement trace depends on his own events only.
 Shot group sg2 (enable_rotation_events): rotation starts from the config (off) whenever its mode starts.
 Not relaxed: a player variable or persisted device state of a player who is not up never changes; a delayed
 control event or timeout scheduled in one player's ball never lands in another player's state; MPF survives any
@@ -63,7 +66,8 @@ PROBES = ["turn_change", "restore_with_progress", "extra_ball", "early_end_game"
           "hold_window", "lb_complete", "lb_timeout", "dl_fired", "timer_tick", "m2_restart_next_ball",
           "histories_differ", "may_applied", "may_skipped", "op_on_timer_deadline", "mode_started_while_ball_ending",
           "sq_step", "sq_step_after_game", "sq_pending_at_ball_end", "sg2_rotate_enabled", "sg2_rotate_disabled",
-          "timer_resume", "timer_pause_pending_at_unload", "q_ach_changed_by_group", "group_event_without_m2", "mode_stopping_at_ball_ending"]
+          "timer_resume", "timer_pause_pending_at_unload", "q_ach_changed_by_group", "group_event_without_m2", "ag2_rotate_with_selection",
+          "ag2_rotate_without_selection", "mode_stopping_at_ball_ending"]
 REAL = ["mpf.core.player.Player", "mpf.modes.game.code.game.Game", "mpf.core.mode.Mode / ModeController",
         "mpf.devices.logic_blocks (Counter, Accrual, Sequence)", "mpf.devices.shot / shot_group / shot_profile",
         "mpf.devices.achievement", "mpf.devices.timer", "mpf.core.enable_disable_mixin",
@@ -115,6 +119,9 @@ FAMILIES = [
                 "ev_ach2_enable", "ev_ach2_enable", "ev_ach2_disable"]),
     ("ag", 3, ["ev_ag_rotate", "ev_ag_rotate", "ev_ag_rotate_left", "ev_ag_start", "ev_ag_enable", "ev_ag_disable",
                "ev_q_a_complete", "ev_q_b_stop"]),
+    ("ag2", 4, ["ev_ag2_rotate", "ev_ag2_rotate", "ev_ag2_rotate_left", "ev_ag2_start", "ev_ag2_select", "ev_ag2_enable",
+                "ev_ag2_disable", "ev_g_a_select", "ev_g_b_select", "ev_g_c_select", "ev_g_b_select", "ev_g_complete",
+                "ev_g_stop", "ev_g_reset"]),
     ("timer", 2, ["ev_t1_start", "ev_t1_start", "ev_t1_stop", "ev_t1_add", "ev_t1_jump", "ev_t1_pause", "ev_t1_pause"]),
     ("vars", 4, ["ev_score", "ev_score", "ev_float", "ev_str1", "ev_str2", "ev_int_set", "ev_int_add", "ev_new_var", "ev_eb", "ev_gift"]),
     ("m2", 3, ["ev_m2_start", "ev_m2_start", "ev_m2_stop", "ev_c_m2", "ev_c_m2", "ev_m2_str", "ev_score"]),
@@ -136,6 +143,9 @@ COMBOS = [
     ["ev_sg2_rot_on", "sw:s_sh_a", "ev_sg2_rotate", "ev_sg2_rotate"],
     ["sw:s_sh_b", "ev_sg2_rotate"],
     ["ev_t1_start", "ev_t1_pause"],
+    ["ev_g_b_select", "ev_ag2_rotate"],
+    ["ev_ag2_rotate", "ev_ag2_start"],
+    ["ev_g_c_select", "ev_ag2_start", "ev_g_complete"],
     ["ev_m2_start", "ev_ag_rotate", "ev_ag_start"],
     ["ev_ag_rotate", "ev_ag_rotate", "ev_ag_start"],
     ["ev_t1_pause"],
@@ -848,6 +858,15 @@ class Harness:
         if name.startswith("ev_ag_") and self.m.game is not None and self.dev["attached"]["m2"] is None \
                 and cls["m1"] == LIVE:
             ctx.probe("group_event_without_m2")
+        if name in ("ev_ag2_rotate", "ev_ag2_rotate_left", "ev_ag2_select") and effs and cur["pnum"] is not None:
+            g2 = self.dev["ag2"]
+            xx = self.x_for(cur["pnum"], [])
+            if g2["enabled"] and g2["sel"]:
+                ctx.probe("ag2_rotate_with_selection")
+                if not [n for n in M.G_ACH if n != g2["sel"] and M._g_selectable(xx, n)] and not M._g_selectable(xx, g2["sel"]):
+                    ctx.probe("ag2_rotate_nothing_available")
+            elif g2["enabled"]:
+                ctx.probe("ag2_rotate_without_selection")
         if name == "ev_sg2_rotate" and effs:
             ctx.probe("sg2_rotate_enabled" if self.dev["sg2_rot"] else "sg2_rotate_disabled")
         may = [e for e in effs if not e[0]]
@@ -929,6 +948,10 @@ class Harness:
             rot = bool(self.m.shot_groups["sg2"].rotation_enabled)
             if rot != bool(dev["sg2_rot"]):
                 return (None, "sg2.rotation_enabled", dev["sg2_rot"], rot)
+        if dev["attached"]["m1"] is not None:
+            en = bool(self.m.achievement_groups["ag2"].enabled)
+            if en != bool(dev["ag2"]["enabled"]):
+                return (None, "ag2.enabled", dev["ag2"]["enabled"], en)
         cnp = self.m.counters["c_np"]
         act = None if cnp._state is None else [cnp._state.value, bool(cnp._state.enabled), bool(cnp._state.completed)]
         exp = dev["c_np"] and [dev["c_np"][0], bool(dev["c_np"][1]), bool(dev["c_np"][2])]
